@@ -179,15 +179,32 @@ example : (recombine (modP 7) ([2, 0].map fun i => (modP 7).ofNat (i + 1))
   recombine_split_modP_at 7 (m := 3) (by decide) _ _ 1 (by decide) (by decide) (by decide) _
 
 omit [Field F] in
-/-- the errors of `random_split` / `recombine` are exactly the guards stated in the model -/
-theorem randomSplitE_ok (o : FieldOps F) {s : List F} (hs : s ≠ []) (coeffs : List F) (t m : ℕ) :
-    randomSplitE o s coeffs t m = .ok (randomSplit o s coeffs t m) := by
+/-- the error of `random_split` is exactly the guard stated in the model: with `t = 0` or fewer parties than field
+elements every batch (also the empty one) is dealt -/
+theorem randomSplitE_ok (o : FieldOps F) (order : ℕ) (s : List F) (coeffs : List F) (t m : ℕ)
+    (h : t = 0 ∨ m < order) :
+    randomSplitE o order s coeffs t m = .ok (randomSplit o s coeffs t m) := by
   unfold randomSplitE
-  cases s with
-  | nil => exact absurd rfl hs
-  | cons a s => rfl
+  rw [if_neg]
+  rintro ⟨h1, h2⟩
+  rcases h with h | h
+  · exact h1 h
+  · omega
 
-example : randomSplitE (modP 7) [5] [3] 1 3 = .ok (randomSplit (modP 7) [5] [3] 1 3) :=
-  randomSplitE_ok _ (by decide) _ _ _
+omit [Field F] in
+/-- … and a field with at most `m` elements is refused when `t > 0` (party `order` would receive the secret itself,
+`MpycV.C14.last_row_is_secret_when_m_eq_p`) -/
+theorem randomSplitE_refuses (o : FieldOps F) (order : ℕ) (s : List F) (coeffs : List F) (t m : ℕ)
+    (ht : 0 < t) (hm : order ≤ m) :
+    randomSplitE o order s coeffs t m = .error "ValueError" := by
+  unfold randomSplitE
+  rw [if_pos]
+  exact ⟨by omega, hm⟩
+
+example : randomSplitE (modP 7) 7 [5] [3] 1 3 = .ok (randomSplit (modP 7) [5] [3] 1 3) :=
+  randomSplitE_ok _ _ _ _ _ _ (Or.inr (by decide))
+
+example : randomSplitE (modP 3) 3 [1] [2] 1 3 = .error "ValueError" :=
+  randomSplitE_refuses _ _ _ _ _ _ (by decide) (by decide)
 
 end MpycV.C12
